@@ -188,6 +188,10 @@ def gen_case(tape, tier):
             cfg["max_size"] = tape.pick([None, 1, 2, 3], "disk-max")
             cfg["with_lru"] = bool(tape.coin(0.6, "with-lru"))
             cfg["lru_size"] = 1 + tape.choose(2, "lru-size")
+        if cls == "hybrid":
+            # the documented score is access_weight*norm_count + duration_weight*norm_duration for ANY two weights
+            cfg["access_weight"], cfg["duration_weight"] = tape.pick([[0.5, 0.5], [0.5, 0.5], [1.0, 1.0], [1.0, 0.0], [0.0, 1.0],
+                                                                      [0.2, 0.9], [2.0, 0.5]], "hybrid-weights")
         ops = []
         nv = 0
         for _ in range(2 + tape.choose(11, "nops")):
@@ -284,7 +288,9 @@ def make_cache(cfg, root):
     if cls == "lru":
         return pc.LRUCache(max_size=cfg["max_size"], allow_cloudpickle=cfg["cloudpickle"], shared=cfg["shared"])
     if cls == "hybrid":
-        return pc.HybridCache(max_size=cfg["max_size"], allow_cloudpickle=cfg["cloudpickle"], shared=cfg["shared"])
+        return pc.HybridCache(max_size=cfg["max_size"], access_weight=cfg.get("access_weight", 0.5),
+                              duration_weight=cfg.get("duration_weight", 0.5), allow_cloudpickle=cfg["cloudpickle"],
+                              shared=cfg["shared"])
     if cls == "simple":
         return pc.SimpleCache()
     return pc.DiskCache(os.path.join(root, "cache"), max_size=cfg["max_size"], use_cloudpickle=cfg["cloudpickle"],
@@ -296,7 +302,7 @@ def make_model(cfg):
     if cls == "lru":
         return LRUModel(cfg["max_size"])
     if cls == "hybrid":
-        return HybridModel(cfg["max_size"])
+        return HybridModel(cfg["max_size"], cfg.get("access_weight", 0.5), cfg.get("duration_weight", 0.5))
     if cls == "simple":
         return SimpleModel()
     return DiskModel(cfg["max_size"], cfg["with_lru"], cfg["lru_size"])
@@ -501,6 +507,7 @@ def run_B(case, tape):
         viol.append({"property": PID, "oracle": oracle, "kind": kind, "detail": detail, "signature": dict(base, **(sig or {}))})
 
     hist = []  # dict(client, op, inv, ret, result, exc)
+    final = {}
     with C.Scratch() as root, warnings.catch_warnings():
         warnings.simplefilter("ignore")
         sim = C.new_sim(tape, root, preempt=cfg.get("preempt", 0.6))
@@ -529,6 +536,17 @@ def run_B(case, tape):
                 rec["exc"] = e
             rec["ret"] = k.log(f"ret:{who}:{op['op']}")
 
+        # file ctimes are a clock too: every file gets a strictly increasing virtual ctime, so "the oldest file" is
+        # never a matter of real timestamp granularity (and replays do not depend on the real clock)
+        ct = [1000]
+
+        def stamp(path, existed):
+            ct[0] += 1
+            sim.fs.ctimes[path] = ct[0]
+
+        sim.fs.on_open_write = stamp
+        sim.fs.read_yields = cfg["cls"] == "disk"  # another process may act between a listing and the stat of its entries
+
         def body():
             c = make_cache(cfg, root)
             for op in case["prefill"]:
@@ -545,6 +563,8 @@ def run_B(case, tape):
                 k.spawn(client, f"client{ci}", proc=("client", ci))
             k.block_until(lambda: len(done) == len(case["clients"]) or
                           all(t.state == "done" for t in k.threads if t is not k.main), "join-clients")
+            if cfg["cls"] == "disk":
+                final["files"] = len(c)
 
         with sim:
             try:
@@ -590,6 +610,16 @@ def run_B(case, tape):
         newer = [p for p in puts if p["op"]["key"] == key and p["ret"] < r["inv"] and p["inv"] > src["ret"]]
         if newer:
             V("values", "get-returned-stale-value", {"get": r["op"], "result": repr(r["result"]), "overwritten_by": newer[0]["op"]})
+            return viol, probes, sim
+    # (f) DiskCache at quiescence: concurrent evictions may leave too many files (no inter-process lock), but never
+    # fewer than the bound allows - a file that is not among the oldest must not silently disappear
+    if cfg["cls"] == "disk" and final.get("files") is not None and not any(r["op"]["op"] == "clear" for r in hist):
+        distinct = len({r["op"]["key"] for r in puts})
+        floor = distinct if cfg["max_size"] is None else min(cfg["max_size"], distinct)
+        if final["files"] < floor:
+            keys_put = [r["op"]["key"] for r in puts]
+            V("policy", "disk-over-evicted", {"files_left": final["files"], "distinct_keys_put": distinct, "max_size": cfg["max_size"]},
+              {"key_put_more_than_once": len(keys_put) != len(set(keys_put))})
             return viol, probes, sim
     # (d) put/get hold the lock for their whole effect, so their sub-history must be linearizable against the
     # LRU model (this is where "the entry evicted is the least recently used" is decided under concurrency).
